@@ -148,7 +148,7 @@ type proxy struct {
 
 func newProxy(target string) *proxy {
 	// every loopback address reaches the hub (the ether announces 127.0.0.1 .. 127.0.0.3)
-	l, err := net.Listen("tcp", "0.0.0.0:0")
+	l, err := vh.Listen("0.0.0.0:0")
 	if err != nil {
 		panic(err)
 	}
@@ -490,7 +490,7 @@ func otherName(h string) string {
 }
 
 func freePort() int {
-	l, err := net.Listen("tcp", "127.0.0.1:0")
+	l, err := vh.Listen("127.0.0.1:0")
 	if err != nil {
 		panic(err)
 	}
